@@ -58,6 +58,21 @@ CHECKS = {
         note="Bounded: palette formats only, single faults (15% cumulative); records whose damaged cost field asks for > ~30000 rounds / bcrypt cost > 8 are "
              "counted but not pushed through verify. The closing clause of C08 (no other spelling of the same bits accepted) is deliberately not enforced.",
         design_ref="DESIGN.md section 4 and Appendix C, C08"),
+    "C09": dict(
+        level="exploration",
+        technique="deterministic simulation: seeded interleavings of several clients deriving and using hashers from the shared passlib.hash objects, random source pinned by the simulator, per-node sequential settings model + non-interference snapshots of every untouched hasher",
+        text="2-4 simulated clients run interleaved programs against the same process-wide hasher objects: derive(node, settings, relaxed) "
+             "and derive-from-derived up to depth 4 (min/max/default/vary rounds and their aliases, rounds, salt_size, ident, version, block_size, "
+             "parallelism, truncate_error, marker; ints or strings; inside, at and beyond the hard limits), hash, needs_update on probe hashes "
+             "below/at/inside/above the window, attribute writes on a client's own derived hasher, backend switches, use of the globals. With the "
+             "random source pinned every hash is a deterministic string, so 'exactly as before' is compared bit for bit: before and after every "
+             "operation the snapshot (23 public attributes, verify/needs_update/identify on constant probe hashes, pinned-salt hash for cheap "
+             "nodes) of every hasher the operation did not touch -- the globals and every parent in particular -- must be identical. The touched "
+             "node is compared with a sequential model of using(): cost = default clipped into the window (or inside it when varying), salt size, "
+             "ident, needs_update exactly outside the window, ValueError beyond hard limits when strict, clamped when relaxed, never a hash outside them.",
+        note="Which inconsistent min/max/default combinations must be refused is not modelled (a refusal is always accepted). 21-hasher palette; scram, "
+             "argon2, fshp are outside it. Interleaving is at operation granularity (line-level interleaving of using() itself is C19's scheduler, not used here).",
+        design_ref="DESIGN.md section 4, C09"),
     "C10": dict(
         level="fault_enumeration",
         technique="deterministic simulation with enumerated fault points: for each seeded (configuration, change) every failure point of the rebuild is visited (k-th using() call raising x 5 exception types, 21 kinds of invalid item x every insertion position, policy-file faults per 64-byte block / line boundary), observable snapshot compared before/after",
